@@ -29,8 +29,9 @@ RULE = (
     "files assembled with astropy must read back the object at its HDU index and the decoys in the orientation "
     "implied by the option; Mask2D invert / resized_mask_shape on input must equal numpy inversion / the "
     "in-memory resize of the written mask (and a symmetric centre crop/pad when the size difference is even); "
-    "a second write without overwrite must raise and leave the file bytes unchanged, with overwrite the file "
-    "must be byte-identical to a fresh write of the new content; missing directories are created and relative / "
+    "a second write without overwrite must raise and leave the file bytes unchanged (also when only one of an "
+    "Imaging dataset's three target files pre-exists), with overwrite the file must be byte-identical to a fresh "
+    "write of the new content; missing directories are created and relative / "
     "bare names resolve against cwd. Non-trivial: 2D case whose native array differs from its up-down flip and "
     "is non-square; 1D case whose native array differs from its reversal; paths/imaging case with a scenario "
     "other than a fresh write to an absolute path. Distinct = SHA-1 of the canonical case."
@@ -701,6 +702,30 @@ def body_imaging(case, ctx):
                                   % (str(dp), e))
                 raise
 
+        if scen == "one-exists-no-overwrite":
+            # only one of the target files pre-exists (written with astropy); the refusal must come from that file
+            which = case["which"] if (case["which"] != "psf" or want_p is not None) else "noise_map"
+            ctx.label("pre-existing:" + which)
+            target = {"data": dwhere, "noise_map": nwhere, "psf": pwhere}[which]
+            os.makedirs(os.path.dirname(target), exist_ok=True)
+            _fits().PrimaryHDU(np.arange(6.0).reshape(2, 3) + 0.5).writeto(target)
+            before = file_bytes(target)
+            raised = None
+            try:
+                ds.output_to_fits(data_path=dp, psf_path=pp, noise_map_path=npth, overwrite=False)
+            except Exception as e:
+                raised = e
+            if (isinstance(raised, FileNotFoundError) and pk in ("bare", "pathlib-bare")
+                    and getattr(raised, "filename", None) in ("", b"")):
+                ctx.fail_stop("bare-filename", "Imaging.output_to_fits(%r) in cwd raises FileNotFoundError: %s"
+                              % (str(dp), raised))
+            ctx.check(raised is not None, "imaging/paths/overwrite-false-no-error",
+                      "Imaging.output_to_fits(overwrite=False) with an existing %s file did not raise" % which)
+            ctx.check(os.path.isfile(target) and file_bytes(target) == before,
+                      "imaging/paths/overwrite-false-file-changed",
+                      "existing %s file modified although overwrite=False" % which)
+            return
+
         if scen in ("exists-no-overwrite", "exists-overwrite"):
             old, old_d, old_n, old_p, _ = build_imaging(case["old"])
             out(old, False)
@@ -771,9 +796,11 @@ def imaging_spec(draw, hi=6):
 @st.composite
 def imaging_cases(draw):
     ds = draw(imaging_spec())
-    scen = draw(st.sampled_from(SCENARIOS))
+    scen = draw(st.sampled_from(SCENARIOS + ["one-exists-no-overwrite"]))
     case = {"ds": ds, "flip": draw(st.booleans()), "scenario": scen,
             "path": draw(st.sampled_from(["rel-nested", "pathlib", "abs", "nested", "bare", "dot", "rel-nested", "pathlib"]))}
+    if scen == "one-exists-no-overwrite":
+        case["which"] = draw(st.sampled_from(["noise_map", "psf", "data"]))
     if scen.startswith("exists"):
         old = draw(imaging_spec(hi=4))
         if old["shape"] == ds["shape"]:
